@@ -234,7 +234,7 @@ def check_object(desc, obj, kind):
                 fail(fn, "disagrees with issubclass on the resolved class", o1[1], e)
         # origin(): the resolved class under the documented map (callable classes are their own region)
         o1, o2 = call2("origin", obj)
-        if o1 != ("ok", d) and not (d is cabc.Callable and o1 == ("ok", tp.Callable)):
+        if o1 != ("ok", d):
             fail("origin", "is not the resolved class", o1, d)
         if _issub(c, (cabc.Collection,)) and o1[0] == "ok":
             og = o1[1]
@@ -278,7 +278,9 @@ def check_object(desc, obj, kind):
             "istypealiastype": isinstance(obj, compat.TypeAliasType),
             "isoptionaltype": obj is tp.Optional or (og in (tp.Union, types.UnionType, tp.Literal)
                                                      and any(a is None or a is type(None) for a in ga)),
-            "isfixedtupletype": bool(ga) and ga[-1] is not Ellipsis and isinstance(og, type) and issubclass(og, tuple),
+            # a parameterised tuple (tuple[()] included: it carries __args__) that does not end in `...`
+            "isfixedtupletype": isinstance(og, type) and issubclass(og, tuple) and (bool(ga) or hasattr(obj, "__args__"))
+            and not (ga and ga[-1] is Ellipsis),
         }
         if isinstance(obj, type) and obj.__name__ in ("Union", "Optional", "UnionType", "Literal"):
             pass_regions = ["named-like-special-form"]
